@@ -87,6 +87,27 @@ func c08CacheLayers(c *Check) {
 			}
 		}
 	}
+	if lookup == nil {
+		// the LRU lookup may live in a helper of the cache (lookup-style): a call to a first-party function that does the cache.Get
+		for _, b := range rm.Blocks {
+			for _, ins := range b.Instrs {
+				g, ok := ins.(*ssa.Call)
+				if !ok || g.Call.StaticCallee() == nil || !p.FirstParty(g.Call.StaticCallee()) {
+					continue
+				}
+				h := g.Call.StaticCallee()
+				for _, hb := range h.Blocks {
+					for _, hi := range hb.Instrs {
+						if k, ok := hi.(*ssa.Call); ok {
+							if o := calleeObj(&k.Call); o != nil && o.Name() == "Get" && fieldOfAddr(callRecv(k)) != nil && fieldOfAddr(callRecv(k)).Name() == "cache" {
+								lookup = g
+							}
+						}
+					}
+				}
+			}
+		}
+	}
 	okShape := lruRemove != nil && lookup != nil && closeCall != nil
 	if okShape {
 		// the accessor closed is the one looked up, for the method's own height
@@ -194,7 +215,30 @@ func c08RefBeforeVisible(c *Check) {
 		}
 	}
 	if add == nil {
-		c.Ob("R8.3", "GetOrLoad adds the loaded accessor", false, p.Pos(fn.Pos()), "GetOrLoad adds the loaded accessor to the LRU")
+		// the miss path may have been extracted into a helper (loadAndAdd-style): evaluate the ordering there
+		for _, b := range fn.Blocks {
+			for _, ins := range b.Instrs {
+				g, ok := ins.(*ssa.Call)
+				if !ok || g.Call.StaticCallee() == nil || !p.FirstParty(g.Call.StaticCallee()) || g.Call.StaticCallee().Blocks == nil {
+					continue
+				}
+				h := g.Call.StaticCallee()
+				for _, hb := range h.Blocks {
+					for _, hi := range hb.Instrs {
+						if k, ok := hi.(*ssa.Call); ok {
+							if o := calleeObj(&k.Call); o != nil && o.Name() == "Add" {
+								if f := fieldOfAddr(callRecv(k)); f != nil && f.Name() == "cache" {
+									add, fn = k, h
+								}
+							}
+						}
+					}
+				}
+			}
+		}
+	}
+	if add == nil {
+		c.Ob("R8.3", "GetOrLoad adds the loaded accessor", false, p.Pos(fn.Pos()), "GetOrLoad (or a helper it calls) adds the loaded accessor to the LRU")
 		return
 	}
 	added := add.Call.Args[len(add.Call.Args)-1]
